@@ -160,6 +160,11 @@ def py_eq(I, a, b):
     if a is b:
         if not isinstance(a, float):
             return True
+    # an abstract object whose equality is modelled by the contract (a NativeFn under __eq__): Python asks the left operand first, then the
+    # reflected operation of the right one
+    for x, y in ((a, b), (b, a)):
+        if isinstance(x, SObj) and isinstance(x.fields.get("__eq__"), NativeFn):
+            return truth(I, x.fields["__eq__"].fn(I, [y], {}))
     ka, kb = kind_of(a), kind_of(b)
     if isinstance(a, Sym) or isinstance(b, Sym):
         if ka in ("int", "bool") and kb in ("int", "bool"):
